@@ -406,11 +406,7 @@ func verifStartLoop(nLookupd, budget int) *verifLoopRun {
 
 // rest: let nsqd's goroutines run until nothing moves any more.
 func (r *verifLoopRun) rest() {
-	if verifrt.Symbolic() {
-		verifrt.Join()
-	} else {
-		time.Sleep(150 * time.Millisecond)
-	}
+	verifrt.Rest()
 }
 
 func (r *verifLoopRun) tick() {
@@ -462,7 +458,9 @@ func (r *verifLoopRun) op(k int) {
 	case 0:
 		n.GetTopic("t0")
 	case 1:
-		n.GetTopic("t0").GetChannel("c0")
+		t := n.GetTopic("t0")
+		r.rest() // (a new topic's pump gets to run before the channel is added)
+		t.GetChannel("c0")
 	case 2:
 		if t, err := n.GetExistingTopic("t0"); err == nil {
 			t.DeleteExistingChannel("c0")
